@@ -61,7 +61,8 @@ func (h *Socks5Handler) Provision(ctx caddy.Context) error {
 
 	credentials := make(map[string]string, len(h.Credentials))
 	for k, v := range h.Credentials {
-		k, v = repl.ReplaceAll(k, ""), repl.ReplaceAll(v, "")
+		// what stands in braces and is no placeholder is part of the name or password
+		k, v = repl.ReplaceKnown(k, ""), repl.ReplaceKnown(v, "")
 		if len(k) > 0 {
 			credentials[k] = v
 		}
